@@ -63,7 +63,30 @@ type builder struct {
 var subKinds = []string{"fline", "hdrline", "headers", "nameaddr", "fromval", "onecontact", "onepai",
 	"contacts", "pais", "cseq", "callid", "uint", "clen", "expires", "tokparam", "uriparams", "urihdrs", "skipquoted"}
 
+// subKindsAll adds the one-shot URI driver (not a resumable parser: kept out of C02/C03).
+var subKindsAll = append(append([]string(nil), subKinds...), "uri")
+
 var nameAddrHTypes = []int{1, 2, 8, 11, 12, 13} // From, To, Contact, Record-Route, Route, PAI
+
+// big: a minority of runs uses long header blocks, big bodies and long
+// pipelines; more often in the thorough tier.
+func (b *builder) big(o *gen.MsgOpts, maxMsgs *int) {
+	p := 60
+	if b.tier == "thorough" {
+		p = 8
+	}
+	if !b.r.Chance(1, p) {
+		return
+	}
+	o.ManyHdrs = true
+	o.MaxHdrs = 0
+	if b.r.Chance(1, 3) {
+		o.BodyMax = 20000
+	}
+	if maxMsgs != nil {
+		*maxMsgs = 8
+	}
+}
 
 // ---------------------------------------------------------------- receiver configuration
 
@@ -410,7 +433,9 @@ func (b *builder) buildC01() {
 		if b.r.Chance(1, 60) {
 			o.BodyMax = 60000
 		}
-		b.msgStream(&c, 40, o, 3)
+		mm := 3
+		b.big(&o, &mm)
+		b.msgStream(&c, 40, o, mm)
 		if b.r.Chance(1, 4) {
 			c.Junk = b.junk(40)
 		}
@@ -521,7 +546,12 @@ func (b *builder) buildC05() {
 	c.Cfg.HdrCap = b.r.PickInt(-1, 40, 40, 40, 5, 0)
 	c.Cfg.ConCap = b.r.PickInt(-1, 10, 10, 2, 0)
 	o := gen.MsgOpts{Request: -1, CL: b.r.PickInt(gen.CLExact, gen.CLExact, gen.CLNone, gen.CLDupEqual), BodyMax: 200, MaxHdrs: b.r.PickInt(0, 0, 6, 40)}
-	b.msgStream(&c, 15, o, 3)
+	mm := 3
+	b.big(&o, &mm)
+	if o.ManyHdrs {
+		c.Cfg.HdrCap = b.r.PickInt(80, 80, 20, -1)
+	}
+	b.msgStream(&c, 15, o, mm)
 	if b.r.Chance(1, 4) {
 		c.Junk = b.junk(30)
 	}
@@ -546,7 +576,9 @@ func (b *builder) buildC06() {
 		if b.r.Chance(1, 80) {
 			o.BodyMax = 50000
 		}
-		b.msgStream(&c, 0, o, 5)
+		mm := 5
+		b.big(&o, &mm)
+		b.msgStream(&c, 0, o, mm)
 		limitStream(&c)
 		s := c.Stream()
 		b.sc.Conns = append(b.sc.Conns, c)
@@ -587,9 +619,11 @@ func (b *builder) buildC11() {
 	if b.r.Chance(1, 2) {
 		c = Conn{Cfg: b.msgCfg(), Obj: -1, Compact: false}
 		o := gen.MsgOpts{Request: -1, CL: gen.CLAny, BodyMax: 200, WildNumbers: b.r.Chance(1, 6), MaxHdrs: b.r.PickInt(0, 4, 12)}
-		b.msgStream(&c, 30, o, 4)
+		mm := 4
+		b.big(&o, &mm)
+		b.msgStream(&c, 30, o, mm)
 	} else {
-		c = b.subConn(subKinds[b.r.Intn(len(subKinds))], 25)
+		c = b.subConn(subKindsAll[b.r.Intn(len(subKindsAll))], 25)
 	}
 	s := c.Stream()
 	switch {
@@ -619,7 +653,7 @@ func (b *builder) buildC11() {
 func (b *builder) buildC12() {
 	kind := "msg"
 	if b.r.Chance(1, 2) {
-		kind = subKinds[b.r.Intn(len(subKinds))]
+		kind = subKindsAll[b.r.Intn(len(subKindsAll))]
 	}
 	var cfg sut.Cfg
 	if kind == "msg" {
@@ -673,7 +707,9 @@ func (b *builder) buildC13() {
 		c.Cfg.HdrCap = b.r.PickInt(-2, -1, 0, 1, 2, 3, 5, 8, 12)
 		c.Cfg.ConCap = b.r.PickInt(-1, 0, 0, 1, 2, 3)
 		o := gen.MsgOpts{Request: -1, CL: gen.CLAny, BodyMax: 100, MaxHdrs: b.r.PickInt(0, 0, 10, 30)}
-		b.msgStream(&c, 15, o, 2)
+		mm := 2
+		b.big(&o, &mm)
+		b.msgStream(&c, 15, o, mm)
 	} else {
 		c = b.subConn(kind, 15)
 		c.Cfg.HdrCap = b.r.PickInt(-1, 0, 1, 2, 4)
